@@ -117,7 +117,7 @@ Qed.
 Section Delete.
   Context (h h' : heap) (F : forest) (tc : tree).
   Hypothesis W : WF h F.
-  Hypothesis Fr : Frame (nids (flat_t tc)) (sids (flat_t tc)) h h'.
+  Hypothesis Fr : Ext (nids (flat_t tc)) (sids (flat_t tc)) h h'.
   Hypothesis ND : NoDup (nids (flat_t tc) ++ sids (flat_t tc)).
   Hypothesis C : Chain_ok h' [tc] None.
   Hypothesis R : Forall ref_ok (flat_t tc).
@@ -131,7 +131,7 @@ Section Delete.
 
   (** the ledger: duplicate, then delete the copy = nothing happened *)
   Theorem dup_then_delete_copy :
-    exists h'', cJSON_Delete (Some (tid tc)) h' = Ret (tt, h'') /\ Frame [] [] h h'' /\ WF h'' F /\
+    exists h'', cJSON_Delete (Some (tid tc)) h' = Ret (tt, h'') /\ Ext [] [] h h'' /\ WF h'' F /\
       lib_live h'' = lib_live h.
   Proof.
     pose proof (Done_WF h h' F tc W Fr ND C R) as W'.
@@ -139,9 +139,9 @@ Section Delete.
       as (_ & Hrun & W'' & _).
     rewrite remove_root_snoc in W'' by apply tc_not_root.
     exists (free_all (free_order [tc]) h'). split; [done|].
-    assert (Hfr : Frame [] [] h (free_all (free_order [tc]) h')).
-    { eapply Frame_free_all; [exact Fr|]. by rewrite free_order_owned, flat_singleton, owned_fl_split. }
-    split; [done|]. split; [done|]. by destruct (Frame_nil_eq _ _ Hfr) as (_ & _ & _ & _ & _ & ?).
+    assert (Hfr : Ext [] [] h (free_all (free_order [tc]) h')).
+    { eapply Ext_free_all; [exact Fr|]. by rewrite free_order_owned, flat_singleton, owned_fl_split. }
+    split; [done|]. split; [done|]. by destruct (Ext_nil_eq _ _ Hfr) as (_ & _ & _ & _ & _ & ?).
   Qed.
 
   (** deleting the source tree (a root [p] of the forest) leaves every block of the copy untouched *)
@@ -167,7 +167,7 @@ Section Delete.
     split_and!.
     - apply free_all_live. split; [|done].
       unfold owned in Hb. rewrite flat_singleton, owned_fl_split in Hb.
-      by destruct (fr_new _ _ _ _ Fr b Hb) as (_ & _ & ? & _).
+      by destruct (xt_new _ _ _ _ Fr b Hb) as (_ & _ & ? & _).
     - by apply free_all_lnk_lookup.
     - by apply free_all_dat_lookup.
     - by apply fa_str_lookup.
